@@ -623,6 +623,32 @@ class Interp(object):
                 cur = self.get_attr(cur, p, node)
         return cur, parts[-1]
 
+    @staticmethod
+    def assigned_only_before_leaving(body):
+        """Names whose every assignment inside the loop body sits in a block that ends (as a direct statement of that block,
+        after the assignment) with break / return / raise."""
+        ok, bad = set(), set()
+
+        def stores(stmt):
+            return set(n.id for n in ast.walk(stmt) if isinstance(n, ast.Name) and isinstance(n.ctx, ast.Store))
+
+        def block(stmts, inner_loop):
+            leaves = bool(stmts) and isinstance(stmts[-1], (ast.Return, ast.Raise) + (() if inner_loop else (ast.Break,)))
+            for st_ in stmts:
+                if isinstance(st_, (ast.Assign, ast.AugAssign, ast.AnnAssign)):
+                    (ok if leaves else bad).update(stores(st_))
+                elif isinstance(st_, ast.If):
+                    block(st_.body, inner_loop)
+                    block(st_.orelse, inner_loop)
+                elif isinstance(st_, (ast.For, ast.While)):
+                    bad.update(stores(st_))            # assignments inside an inner loop: not analysed
+                elif isinstance(st_, (ast.With, ast.Try)):
+                    bad.update(stores(st_))
+                else:
+                    bad.update(stores(st_))
+        block(body, False)
+        return ok - bad
+
     def loop_aliases(self, st, env, spec, targets, stored):
         fn_names = set(a.arg for a in ast.walk(env.finfo.node) if isinstance(a, ast.arg))
         for nd in ast.walk(env.finfo.node):
@@ -707,6 +733,10 @@ class Interp(object):
         # (scratch): undefined at the start of every iteration and after the loop.  Sound: a read before the assignment,
         # or after the loop, is an unsupported construct (undecided), never a silent value.
         auto_scratch = [nm for nm in sorted(stored) if nm not in spec.havoc and nm not in targets and nm not in spec.scratch]
+        # ... except locals that are only ever assigned immediately before leaving the loop (`found = True; break`): no
+        # later iteration and no normal exit of the loop can see such an assignment, so they simply keep their value
+        leaving_only = self.assigned_only_before_leaving(st.body)
+        auto_scratch = [nm for nm in auto_scratch if nm not in leaving_only or nm not in env.locals]
         mode = ctx.choose(2, "loop")
         # havoc
         for nm, kind in spec.havoc.items():
